@@ -127,7 +127,31 @@ var jsonSwaps = []string{
 // MutateJSON returns valid with exactly one mutation. valid must be well-formed JSON;
 // the result may or may not be.
 func MutateJSON(t *rapid.T, valid []byte) Bytes {
-	switch rapid.IntRange(0, 5).Draw(t, "mutcls") {
+	cls := rapid.IntRange(0, 6).Draw(t, "mutcls")
+	if cls == 6 {
+		// a string node that itself holds a JSON document (e.g. PodResources.NetConf):
+		// mutate the inner document and embed it again
+		var tree any
+		if err := json.Unmarshal(valid, &tree); err == nil {
+			var paths [][]any
+			collectPaths(tree, nil, &paths)
+			var inner [][]any
+			for _, p := range paths {
+				if str, ok := nodeAt(tree, p).(string); ok && len(str) > 1 && (str[0] == '{' || str[0] == '[') && json.Valid([]byte(str)) {
+					inner = append(inner, p)
+				}
+			}
+			if len(inner) > 0 {
+				p := inner[rapid.IntRange(0, len(inner)-1).Draw(t, "innernode")]
+				mutated := MutateJSON(t, []byte(nodeAt(tree, p).(string)))
+				if b, err := json.Marshal(editPath(tree, p, string(mutated), false, "")); err == nil {
+					return Bytes(b)
+				}
+			}
+		}
+		cls = 0
+	}
+	switch cls {
 	case 0, 1, 2: // structural: replace / delete / rename one node
 		var tree any
 		if err := json.Unmarshal(valid, &tree); err != nil {
@@ -177,6 +201,20 @@ func collectPaths(n any, cur []any, out *[][]any) {
 			collectPaths(v[i], append(cp, i), out)
 		}
 	}
+}
+
+func nodeAt(n any, path []any) any {
+	for _, p := range path {
+		switch v := n.(type) {
+		case map[string]any:
+			n = v[p.(string)]
+		case []any:
+			n = v[p.(int)]
+		default:
+			return nil
+		}
+	}
+	return n
 }
 
 func sortStrings(a []string) {
